@@ -36,26 +36,39 @@ BRACE_NUM_FEATURE = r"\{[^{}]*\d{19,}"
 BRACE_SEQ_FEATURE = r"\{[-+]?(\d+|[A-Za-z])\.\.[-+]?(\d+|[A-Za-z])\.\.[-+]?\d+\}"
 HEREDOC_FEATURE = r"<<"
 KNOWN_PANICS = [
-    ("substring_negative_length_underflow", r"brush-core/src/expansion\.rs$", r"subtract with overflow", SUBSTR_FEATURE),
     ("brace_number_literal_overflow", r"brush-parser/src/word\.rs$", r"ParseIntError", BRACE_NUM_FEATURE),
     ("brace_sequence_step_underflow", r"brush-core/src/braceexpansion\.rs$", r"subtract with overflow", BRACE_SEQ_FEATURE),
     ("history_count_exceeds_items", r"brush-builtins/src/history\.rs$", r"subtract with overflow", r"history\s+\d"),
     ("heredoc_in_nested_construct_unwrap", r"brush-parser/src/tokenizer\.rs$", r"Option::unwrap", HEREDOC_FEATURE),
-    ("strftime_invalid_format_panics", r"std:alloc/src/string\.rs$|alloc/src/string\.rs$", r"Display implementation returned an error", r"\\D\{|HISTTIMEFORMAT|%\("),
+    ("strftime_invalid_format_panics", r"^std:alloc/src/string\.rs$", r"Display implementation returned an error", r"\\D\{|HISTTIMEFORMAT|%\("),
+    ("redirect_fd_number_overflow", r"brush-parser/src/parser/peg\.rs$", r"ParseIntError", r"\d{10,}\s*[<>]"),
+    ("wait_repolls_failed_background_job", r"^dep:tokio-[^/]*/src/runtime/task/core\.rs$", r"JoinHandle polled after completion", r"&[\s\S]*\bwait\b"),
     ("backquote_escape_span_boundary", r"brush-interactive/src/highlighting\.rs$", r"char boundary", r"`[^`]*\\"),
 ]
 HANG_EMPTY_TAG = re.compile(r"<<-?(''|\"\")?[ \t]+\Z")
 HANG_CHAR_INC = re.compile(r"\{[A-Za-z]\.\.[A-Za-z]\.\.[-+]?(\d{10,})\}")
 
 
-# five or more directly nested openers: brush's PEG grammars backtrack exponentially on them
-NEST_OPENERS = re.compile(r"(?:(?:\w+\[|\"?\$\(\(?|\$\{\w*[-:/#%]*|\{\w?,?\s*|\(\(?|`|\w+\(\)\s*\{\s*|@\(|<\(|\$')\s*){5,}")
-EXP_STAGES = ("text:brace", "token:brace", "text:word", "token:word", "token:arithmetic", "text:arithmetic", "token:parameter",
+# five or more directly nested openers: brush's PEG grammars backtrack exponentially on them.
+# "Nested opener" = a unit of 1..24 characters that holds an opening character or a compound keyword
+# and is repeated at least five times in a row.
+_REPEAT = re.compile(r"(.{1,24}?)\1{4,}", re.S)
+_OPENER = re.compile(r"[(\[{`'\"]|\b(case|if|while|until|for|select|function)\b")
+
+
+def deep_nest(text):
+    for m in _REPEAT.finditer(text):
+        if _OPENER.search(m.group(1)):
+            return True
+    return False
+
+
+EXP_STAGES = ("program", "text:brace", "token:brace", "text:word", "token:word", "token:arithmetic", "text:arithmetic", "token:parameter",
               "token:heredoc", "text:pattern", "token:pattern", "text:prompt")
 
 
 def known_hang_clause(text, stage=None):
-    if NEST_OPENERS.search(text) and (stage is None or stage in EXP_STAGES):
+    if deep_nest(text) and (stage is None or stage in EXP_STAGES):
         return "nested_construct_exponential_backtracking"
     if HANG_EMPTY_TAG.search(text):
         return "heredoc_empty_tag_at_eof_hang"
@@ -63,6 +76,21 @@ def known_hang_clause(text, stage=None):
         if int(m.group(1)) % (2 ** 32) == 0:
             return "brace_char_increment_wraps_to_zero"
     return None
+
+
+def canon_file(f):
+    """the same canonical panic location as the harness prints (independent of checkout / registry dirs)"""
+    i = f.rfind("/brush-")
+    if i >= 0:
+        return f[i + 1:]
+    i = f.rfind("/.cargo/registry/src/")
+    if i >= 0:
+        rest = f[i + 21:]
+        return "dep:" + (rest.split("/", 1)[1] if "/" in rest else rest)
+    i = f.rfind("/library/")
+    if i >= 0:
+        return "std:" + f[i + 9:]
+    return f
 
 
 def cheap_hang(text):
@@ -284,8 +312,7 @@ def split_resp(r):
     return "?", r, "", ""
 
 
-HOT_CLAUSE = {"substr": "substring_negative_length_underflow", "asubstr": "substring_negative_length_underflow",
-              "psubstr": "substring_negative_length_underflow", "hist": "history_count_exceeds_items"}
+HOT_CLAUSE = {"hist": "history_count_exceeds_items"}
 
 
 def hot_clause(kind, loc, msg, hline):
@@ -797,7 +824,8 @@ class Gen:
         r = self.rng
         pre = "x=abc; y='a b  c'; z=; arr=(1 2 3); declare -A m=([k]=v); n=5; set -- p1 'p 2' p3\n"
         body = "\n".join(self.cmd(r.randint(1, 4)) for _ in range(r.randint(1, 4)))
-        if r.random() < 0.15:
+        # token mutation only where it cannot unbound a counting loop
+        if r.random() < 0.15 and not re.search(r"\b(while|until)\b|for \(\(", body):
             body = token_mutate(r, body)
         return pre + body + "\n"
 
@@ -877,9 +905,7 @@ def run_script(script, timeout=10, mem_gb=3, which="brush", interactive=False, s
     if to:
         res["how"] = "timeout"
     elif m:
-        f = m.group(1)
-        i = f.rfind("/brush-")
-        f = f[i + 1:] if i >= 0 else f
+        f = canon_file(m.group(1))
         res.update(how="panic", loc="%s:%s" % (f, m.group(2)), msg=m.group(3))
     elif "has overflowed its stack" in err:
         res["how"] = "stack-overflow"
